@@ -31,7 +31,7 @@ func normalise(c Case) Case {
 			}
 		}
 	}
-	out := Case{Path: c.Path, Events: make([]Event, len(c.Events))}
+	out := Case{Path: c.Path, Events: make([]Event, len(c.Events)), Conc: c.Conc}
 	pos := uint64(0)
 	st := map[[2]uint64]string{}
 	for i, e := range c.Events {
